@@ -661,7 +661,7 @@ Section Embedded.
     - apply reads_any; assumption.
     - assert (tn = any_type_name pb m) as ->.
       { unfold any_type_name, tn. rewrite (field_bytes_s _ _ _ Htn). reflexivity. }
-      constructor.
+      constructor. intros s -> E3. rewrite E3 in Hdata. injection Hdata as <-. exact Hd.
   Qed.
 
   Lemma e_structure : forall f, E_value f /\ E_object f /\ E_oneof f.
